@@ -141,3 +141,8 @@ def run(ctx, rep):
     from props.c05 import replay_consumes_payload
     replay_consumes_payload(ctx, rep, 'R14.j')
 
+    # ------------------------------------------------------------ R14.k the cleaner follows the flags of its own name
+    rep.rule('R14.k', 'a configuration flag read straight from the config and handed to a boolean parameter goes to the parameter of its own name (archive_expired to the expiry pass, delete_oldest_segments to the size pass)', floor=1, analysis='A9')
+    from props import storage_forms as sfk_
+    sfk_.config_flags_by_name(ctx, rep, 'R14.k')
+
